@@ -86,6 +86,7 @@ type Chain struct {
 	blocks   map[int64]blockInfo
 	headers  map[int64]*ibctm.Header
 	Genesis  map[string]json.RawMessage
+	DB       dbm.DB // the application's database (kept for Restart)
 	// TxLog records every block for re-execution (C20).
 	TxLog []BlockRecord
 	// KeepLog controls whether TxLog is filled.
@@ -149,7 +150,23 @@ type ChainConfig struct {
 }
 
 func newApp(chainID string) *simapp.SimApp {
-	return simapp.NewSimApp(log.NewNopLogger(), dbm.NewMemDB(), nil, true, simapp.EmptyAppOptions{}, baseapp.SetChainID(chainID))
+	return newAppOn(chainID, dbm.NewMemDB())
+}
+
+func newAppOn(chainID string, db dbm.DB) *simapp.SimApp {
+	return simapp.NewSimApp(log.NewNopLogger(), db, nil, true, simapp.EmptyAppOptions{}, baseapp.SetChainID(chainID))
+}
+
+// Restart replaces the application object by a fresh one over the same database, as a node restart does:
+// everything the old object held in memory is gone, everything committed is still there.
+func (c *Chain) Restart() {
+	if c.DB == nil {
+		return
+	}
+	c.App = newAppOn(c.Name, c.DB)
+	if got := c.App.LastBlockHeight(); got != c.Height {
+		panic(fmt.Sprintf("restart of %s: application is at height %d, chain at %d", c.Name, got, c.Height))
+	}
 }
 
 // BuildGenesis returns the deterministic genesis for a chain.
@@ -231,11 +248,12 @@ func BuildGenesis(app *simapp.SimApp, cfg ChainConfig, vals *cmttypes.ValidatorS
 
 // NewChain creates and initialises a chain and commits block 1.
 func NewChain(w *World, cfg ChainConfig) *Chain {
-	app := newApp(cfg.Name)
+	db := dbm.NewMemDB()
+	app := newAppOn(cfg.Name, db)
 	vals, signers := deterministicValidators(cfg.Name)
 	accs := deterministicAccounts(cfg.Name)
 	gs := BuildGenesis(app, cfg, vals, accs)
-	c := &Chain{W: w, Name: cfg.Name, App: app, Vals: vals, Signers: signers, Accounts: accs,
+	c := &Chain{W: w, Name: cfg.Name, App: app, DB: db, Vals: vals, Signers: signers, Accounts: accs,
 		blocks: map[int64]blockInfo{}, headers: map[int64]*ibctm.Header{}, Genesis: gs}
 	c.initChain()
 	return c
